@@ -489,6 +489,21 @@ def _layout_subtrees(
                     left_info["size"].w + (subtree_spacing - trunk_width) / 2,
                     0,
                 )
+
+                # Make room for a trunk wider than the space between the far
+                # sides of both subtrees, so that it stays inside this subtree
+                overflow_before = max(0, -trunk_pos.x)
+                overflow_after = max(0, trunk_pos.x + trunk_width - state["size"].w)
+
+                if overflow_before > 0 or overflow_after > 0:
+                    shift = Position(overflow_before, 0)
+                    state["size"] = Size(
+                        state["size"].w + overflow_before + overflow_after,
+                        state["size"].h,
+                    )
+                    state["left_pos"] += shift
+                    state["right_pos"] += shift
+                    trunk_pos += shift
             else:
                 left_trunk_dist = left_info["size"].h - left_info["trunk"].bottom().y
                 right_trunk_dist = right_info["trunk"].top().y
@@ -513,6 +528,21 @@ def _layout_subtrees(
                     0,
                     left_info["size"].h + (subtree_spacing - trunk_height) / 2,
                 )
+
+                overflow_before = max(0, -trunk_pos.y)
+                overflow_after = max(
+                    0, trunk_pos.y + trunk_height - state["size"].h
+                )
+
+                if overflow_before > 0 or overflow_after > 0:
+                    shift = Position(0, overflow_before)
+                    state["size"] = Size(
+                        state["size"].w,
+                        state["size"].h + overflow_before + overflow_after,
+                    )
+                    state["left_pos"] += shift
+                    state["right_pos"] += shift
+                    trunk_pos += shift
 
             state["trunk"] = Rect.make_from(trunk_pos, trunk_size)
             state["fork_thickness"] = fork_thickness
